@@ -59,6 +59,10 @@ pub struct Run {
     extra: Mutex<Map<String, Value>>,
     assumptions: Mutex<Vec<String>>,
     notes: Mutex<Vec<String>>,
+    /// When set, the shared program checkers judge acceptance, panics and static types only:
+    /// a result that differs from the reference semantics is counted, not reported (that
+    /// judgement belongs to the properties about semantics, C01-C03).
+    pub types_only: std::sync::atomic::AtomicBool,
 }
 
 pub const MAX_KEPT_VIOLATIONS: usize = 25;
@@ -79,6 +83,7 @@ impl Run {
             extra: Mutex::new(Map::new()),
             assumptions: Mutex::new(Vec::new()),
             notes: Mutex::new(Vec::new()),
+            types_only: std::sync::atomic::AtomicBool::new(false),
         }
     }
 
